@@ -56,15 +56,44 @@ func anyRouter(*http.Request, *types.Context) bool { return true }
 // AndMatcher 按顺序符合每一个要求
 //
 // 前一个对象返回的实例将作为下一个对象的输入参数。
+//
+// 如果其中的某一个对象返回 false，之前的对象对请求路径和参数所作的修改将被撤消。
 func AndMatcher(m ...Matcher) Matcher {
 	return MatcherFunc(func(r *http.Request, ctx *types.Context) bool {
+		path := r.URL.Path
+		var params map[string]string
+		if ctx.Count() > 0 {
+			params = make(map[string]string, ctx.Count())
+			ctx.Range(func(k, v string) { params[k] = v })
+		}
+
 		for _, mm := range m {
 			if !mm.Match(r, ctx) {
+				r.URL.Path = path
+				restoreParams(ctx, params)
 				return false
 			}
 		}
 		return true
 	})
+}
+
+// 将 ctx 中的参数恢复为 params 的内容
+func restoreParams(ctx *types.Context, params map[string]string) {
+	if ctx.Count() == 0 && len(params) == 0 {
+		return
+	}
+
+	keys := make([]string, 0, ctx.Count())
+	ctx.Range(func(k, _ string) { keys = append(keys, k) })
+	for _, k := range keys {
+		if _, found := params[k]; !found {
+			ctx.Delete(k)
+		}
+	}
+	for k, v := range params {
+		ctx.Set(k, v)
+	}
 }
 
 // OrMatcher 仅需符合一个要求
